@@ -208,6 +208,11 @@ def _arm_signature(f, tb, stop):
     return (tuple(sorted(kinds)), tuple(sorted(ords)), neg if 'eq' in kinds else False, sc)
 
 
+def _empty_selection_blocks(g):
+    """blocks that build the empty selection (SelectionVector::none): returning it needs no alive mask"""
+    return {c.bb for c in A.calls(g) if c.resolved.endswith('SelectionVector::none')}
+
+
 def r04b(ctx, rep, cr):
     rep.rule('R04b', 'sibling evaluators agree: for every Condition variant the arms of evaluate, evaluate_with_depth and '
                      'evaluate_tensor_impl have the same comparator class (equality with/without negation, ordering helper with the '
@@ -290,15 +295,25 @@ def r04b(ctx, rep, cr):
             stop = {b for vv, b in tg.items() if b != tb}
             R = A.reachable(g, [tb], cut_blocks=stop)
             Ro = A.reachable(g, list(stop), cut_blocks={tb})
+            class _K:   # a kernel handed on as a function pointer (`helper(.., simd::filter_eq_i64)`): the arm names it as a constant
+                pass
             filt = [c for c in A.calls(g) if c.bb in R and c.bb not in Ro and re.search(r'simd::filter_\w+$', c.resolved)]
+            for b_ in sorted(R - Ro):
+                for st in g.bbs[b_]['s']:
+                    for o in A.rvalue_operands(st[1]):
+                        if o[0] == 'k' and re.search(r'simd::filter_\w+', o[1]):
+                            k_ = _K()
+                            k_.resolved = re.search(r'[\w:]*simd::filter_\w+', o[1]).group(0)
+                            k_.line, k_.target, k_.bb = st[2], b_, b_
+                            filt.append(k_)
             for c in filt:
                 n += 1
                 op = re.search(r'filter_([a-z]+)_', c.resolved.split('::')[-1])
                 if not op or op.group(1) != v.lower():
                     rep.violation('R04b', g, 'simd-' + v, g.loc(c.line), 'the vectorised arm for Condition::%s calls %s' % (v, c.resolved.split('::')[-1]))
                     continue
-                # alive mask must be applied on every path from the filter to a Some return
-                rets = lib.success_return_reachable(g, [c.target], cut_blocks={m.bb for m in masks})
+                # alive mask must be applied on every path from the filter to a Some return that carries a non-empty selection
+                rets = lib.success_return_reachable(g, [c.target], cut_blocks={m.bb for m in masks} | _empty_selection_blocks(g))
                 if rets:
                     rep.violation('R04b', g, 'alive-mask-' + v, g.loc(c.line), 'the vectorised arm for Condition::%s can return a selection without applying the alive mask: deleted rows are selected' % v)
                 else:
